@@ -124,4 +124,11 @@ var propMeta = map[string]*PropMeta{
 		Assumptions: append([]string{"the pure round-trip law for arbitrary expression trees is covered only as far as generated schemas and queries carry those trees across the link (no stand-alone codec fuzzer: that would be another technique)"}, commonAssumptions...),
 		Probes: []string{"codec.fields", "codec.row", "codec.flatrow", "codec.point", "probe.rpc-query-compared"},
 	},
+	"C13": {
+		Level: "fault_enumeration", QuickSecs: 60, ThoroughSecs: 900, Recycle: 40,
+		Rule: "one case = one seeded plan with a cluster (1 leader, 1-4 partitions, codec in 30%), a standalone differential node D and the real web handler on D. After ingest and catch-up, 3-8 generated queries are each run under one fault family: (cq) cluster query with a generated non-empty subset of partitions x failure mode from the complete list {no live handler, error before fields, error after fields, error after k rows, retriable error with no handler left, hangs past ClusterQueryTimeout, answers after the timeout, slow but in time} and a caller deadline in {none, 60 s, 4 s}, plus the fault-free control; (dq) embedded query with a deadline that is already expired or expires while the scripted consumer pauses at row j; (hq) HTTP GET /run, /run again (cache) and /async through the real router with MaxResponseBytes in {default, 60, 200, 1000, 1 GiB} and QueryTimeout in {default, 0.5 s} against an iteration coalesce interval of 1 ms or 2 s. Oracle: D's answer is the ground truth for 'complete'; whenever the returned rows are not exactly D's rows the caller must have been told (embedded: non-nil error; cluster: error, or successful < total with every failed partition listed in MissingPartitions; HTTP: status other than 200); the fault-free control must be complete and equal. The failure-mode list is enumerated by the generator (every mode x every partition index is drawn many times per batch); subsets and queries are sampled. Non-trivial = a check whose ground truth has rows.",
+		Real:  append([]string{"web.Configure router, query cache (bolt), doQuery, HTTP responses via Router.ServeHTTP"}, realCL...), Stub: append([]string{"query-handler faults: wrapper around the follower's registered handler function"}, stubCL...),
+		Assumptions: commonAssumptions,
+		Probes: []string{"probe.cq-fault-free", "probe.cq-fault.noregister", "probe.cq-fault.err-before", "probe.cq-fault.err-after-fields", "probe.cq-fault.err-mid", "probe.cq-fault.retriable", "probe.cq-fault.hang", "probe.cq-fault.slow-late", "probe.dq-expired", "probe.dq-expired-mid-scan", "probe.http.200", "probe.http.500"},
+	},
 }
